@@ -17,6 +17,22 @@ from .contract import FUNCS, CLASSES, find_function
 from .logic import QForAll as ForAll
 
 
+def _has_quant(e):
+    import z3
+    todo = [e]
+    seen = set()
+    while todo:
+        x = todo.pop()
+        if x.get_id() in seen:
+            continue
+        seen.add(x.get_id())
+        if z3.is_quantifier(x):
+            return True
+        if z3.is_app(x):
+            todo.extend(x.children())
+    return False
+
+
 class OutOfSubset(Exception):
     pass
 
@@ -177,6 +193,8 @@ class Exec:
         self.types = dict(contract.types)
         self.types.update(self.variant.get("types", {}))
         self.requires = list(contract.requires) + list(self.variant.get("requires", []))
+        self.raises = dict(contract.raises, **self.variant.get("raises", {}))
+        self.may_raise = dict(contract.may_raise, **self.variant.get("may_raise", {}))
         self.cls = CLASSES.get(contract.cls) if contract.cls else None
         self.apply_fns = {}
 
@@ -505,7 +523,8 @@ def _patch_engine():
         f = call.func
         txt = ast.unparse(f)
         if txt in self.c.callees:
-            return self.c.callees[txt].startswith("pure:") or self.c.callees[txt] in ("identity",)
+            t0 = self.callee_target(txt)[0]
+            return t0.startswith("pure:") or t0 in ("identity",)
         if isinstance(f, ast.Name):
             if f.id in PURE_BUILTINS or f.id in SPEC_FUNCS:
                 return True
@@ -553,6 +572,9 @@ def _patch_engine():
             return SV("py", py=v)
         if v is Ellipsis:
             return SV("py", py=Ellipsis)
+        if isinstance(v, float) and v == int(v):
+            self.assumptions.add("float constants with integral value are read as integers; time/float arithmetic is over mathematical integers")
+            return sv_int(int(v))
         raise OutOfSubset(f"constant {v!r}")
     E.pev_Constant = pev_Constant
 
@@ -912,7 +934,7 @@ def _patch_engine():
         txt = ast.unparse(f)
         args = node.args
         if txt in self.c.callees:
-            tgt = self.c.callees[txt]
+            tgt = self.callee_target(txt)[0]
             if tgt == "identity":
                 return self.pev(args[-1], st, m)
             if tgt.startswith("pure:"):
@@ -1337,7 +1359,7 @@ def _patch_exec():
     def branch_checks(self, checks, st, ctx, k):
         """implicit-exception conditions recorded during a pure evaluation: the failing side raises"""
         for (ok, excname, node) in checks:
-            if is_true(simplify(ok)):
+            if is_true(simplify(ok)) or self.quick_unsat(st, Not(ok)):
                 continue
             bad = st.assume(Not(ok))
             bad = bad.copy(notes=bad.notes + (f"L{self.rel_line(node)}:{excname}",))
@@ -1416,9 +1438,28 @@ def _patch_exec():
         self.ev(node.values[i], st, ctx, got)
     E.ev_boolop = ev_boolop
 
+    def quick_unsat(self, st, cond):
+        """cheap infeasibility test on the quantifier-free part of the path condition (sound: a subset of the hypotheses)"""
+        import z3
+        qf = [h for h in st.pc if not _has_quant(h)]
+        if not qf:
+            return False
+        sol = z3.Solver()
+        sol.set("timeout", 60)
+        for h in qf:
+            sol.add(h)
+        sol.add(cond)
+        return sol.check() == z3.unsat
+    E.quick_unsat = quick_unsat
+
     def fork(self, cond, st, kt, kf, node=None, tag=None):
         c = simplify(cond)
         ln = self.rel_line(node) if node is not None else 0
+        if not is_true(c) and not is_false(c):
+            if self.quick_unsat(st, cond):
+                c = BoolVal(False)
+            elif self.quick_unsat(st, Not(cond)):
+                c = BoolVal(True)
         if not is_false(c):
             s = st.assume(cond) if not is_true(c) else st
             kt(s.copy(notes=s.notes + (f"L{ln}:T",)) if not is_true(c) else s)
@@ -1735,7 +1776,12 @@ def _patch_exec():
         # locks and similar context managers whose __enter__/__exit__ do not affect the modelled state
         for item in s.items:
             txt = ast.unparse(item.context_expr)
-            if not (txt.endswith("lock") or txt.endswith("mutex") or txt.endswith("_lock") or txt in self.c.callees and self.c.callees[txt] == "noop_cm"):
+            if txt == "util.safe_reraise()":
+                # documented meaning: run the block, then re-raise the exception that was being handled
+                self.assumptions.add("util.safe_reraise(): runs the block, then re-raises the exception being handled (its documented meaning)")
+                return self.ex_block(s.body, st, ctx.with_(k=lambda st2: ctx.exc("<reraise>", st2, s)))
+            if not (txt.endswith("lock") or txt.endswith("mutex") or txt.endswith("_lock") or txt.endswith(".not_full") or txt.endswith(".not_empty")
+                    or txt in self.c.callees and self.c.callees[txt] == "noop_cm"):
                 raise OutOfSubset(f"with {txt}")
         self.assumptions.add("`with <lock>:` is a no-op sequentially; schedules are not explored (DESIGN §2.6)")
         self.ex_block(s.body, st, ctx)
@@ -1873,7 +1919,7 @@ def _patch_loops():
                 if isinstance(n, ast.Call):
                     txt = ast.unparse(n.func)
                     if txt in self.c.callees:
-                        tgt = self.c.callees[txt]
+                        tgt = self.callee_target(txt)[0]
                         if tgt.startswith("pure:") or tgt in ("identity", "noop"):
                             continue
                         eff.append(("call", txt, n))
@@ -1973,8 +2019,17 @@ def _patch_loops():
                         for mname in maps:
                             spots.append((mname, recv.t))
                 elif kind == "call":
-                    tgt = self.c.callees.get(txt)
+                    tgt, cspec = self.callee_target(txt)
                     fnc = FUNCS.get(tgt) if tgt else None
+                    if fnc is not None and fnc.modifies and not any(mm == "*" for mm in fnc.modifies):
+                        # evaluate the callee's frame at loop entry when receiver and arguments are loop-invariant
+                        try:
+                            sp = self.call_frame_spots(fnc, cspec, extra, st, names)
+                        except Exception:
+                            sp = None
+                        if sp is not None:
+                            spots += sp
+                            continue
                     if fnc is None and isinstance(extra.func, ast.Attribute):
                         try:
                             r = self.pev(extra.func.value, st, Mode(True))
@@ -2033,6 +2088,34 @@ def _patch_loops():
         # ghost variables are loop-carried too
         return st2
     E.havoc_loop = havoc_loop
+
+    def call_frame_spots(self, fnc, cspec, call, st, assigned):
+        arg_nodes = [ast.parse(a, mode="eval").body for a in cspec["args"]] if cspec and "args" in cspec else list(call.args)
+        recv_node = None
+        if cspec and cspec.get("recv"):
+            recv_node = ast.parse(cspec["recv"], mode="eval").body
+        elif fnc.cls and isinstance(call.func, ast.Attribute):
+            recv_node = call.func.value
+        for nd in arg_nodes + ([recv_node] if recv_node is not None else []):
+            if set(n.id for n in ast.walk(nd) if isinstance(n, ast.Name)) & assigned:
+                return None
+        names, defaults = self.callee_params(fnc)
+        env = {}
+        vals = [self.pev(a, st, Mode(True)) for a in arg_nodes]
+        if fnc.cls and names and names[0] in ("self", "cls"):
+            r = self.pev(recv_node, st, Mode(True)) if recv_node is not None else vals.pop(0)
+            env[names[0]] = SV("v", r.t, fnc.cls if r.hint not in CLASSES else r.hint)
+            names = names[1:]
+        for nm in names:
+            if vals:
+                env[nm] = vals.pop(0)
+        sub = self.sub(fnc)
+        cst = st.copy(env=env)
+        out = []
+        for d in fnc.modifies:
+            out += sub.modset_entry(d, cst, Mode(True))
+        return out
+    E.call_frame_spots = call_frame_spots
 
     def modset_names(self, mm, fnc):
         """heap map names a callee modifies-entry may touch (conservative)"""
@@ -2220,13 +2303,33 @@ def _patch_calls():
     E = Exec
     from z3 import Lambda
 
+    def callee_target(self, txt):
+        """callees[txt] may be a string target or a dict(fn=key, recv="expr", args=["expr", ...])"""
+        v = self.c.callees.get(txt)
+        if isinstance(v, dict):
+            return v["fn"], v
+        return v, None
+    E.callee_target = callee_target
+
     def ev_call(self, node, st, ctx, k):
         f = node.func
         txt = ast.unparse(f)
         if node.keywords and any(kw.arg is None for kw in node.keywords):
             raise OutOfSubset("**kwargs call")
         if txt in self.c.callees:
-            tgt = self.c.callees[txt]
+            tgt, spec = self.callee_target(txt)
+            if spec is not None:
+                fnc = FUNCS[tgt]
+                call = node
+                if "args" in spec:
+                    call = ast.Call(func=node.func, args=[ast.parse(a, mode="eval").body for a in spec["args"]], keywords=[])
+                    ast.copy_location(call, node)
+                    ast.fix_missing_locations(call)
+                recv_node = ast.parse(spec["recv"], mode="eval").body if spec.get("recv") else None
+                if recv_node is not None:
+                    ast.copy_location(recv_node, node)
+                    ast.fix_missing_locations(recv_node)
+                return self.ev_contract_call(fnc, recv_node, call, st, ctx, k)
             if tgt == "noop":
                 return self.ev_list([a for a in node.args], st, ctx, lambda svs, st2: k(NONE, st2))
             if tgt.startswith("havoc:"):
@@ -2599,6 +2702,8 @@ def _patch_calls():
         s.__dict__.update(self.__dict__)
         s.c = fnc
         s.variant = {}
+        s.raises = dict(fnc.raises)
+        s.may_raise = dict(fnc.may_raise)
         s.types = dict(fnc.types)
         s.cls = CLASSES.get(fnc.cls) if fnc.cls else None
         return s
@@ -2661,9 +2766,11 @@ def _patch_calls():
         # exceptional outcomes
         for exc_name, cond in list(fnc.raises.items()) + list(fnc.may_raise.items()):
             c = sub.truth(sub.pev(ast.parse(cond, mode="eval").body, cst, m_pre), cst)
+            if is_false(simplify(c)) or self.quick_unsat(st, c):
+                continue
             bad = st.assume(c)
             bad = bad.copy(notes=bad.notes + (f"L{self.rel_line(node)}:{exc_name}",))
-            ctx.exc(exc_name, bad, node)
+            ctx.exc(exc_name.split("@")[0], bad, node)
             if exc_name in fnc.raises:
                 st = st.assume(Not(c))
                 cst = cst.copy(pc=st.pc)
@@ -2852,7 +2959,7 @@ def _patch_run():
         for i, cl in enumerate(self.c.ensures):
             g = self.truth(self.pev(ast.parse(cl, mode="eval").body, rst, m), rst)
             self.oblige(st, g, f"{tag}.ensures[{i}]", node)
-        for exc_name, cond in self.c.raises.items():
+        for exc_name, cond in self.raises.items():
             c = self.truth(self.pev(ast.parse(cond, mode="eval").body, self.st0, Mode(True)), self.st0)
             self.oblige(st, Not(c), f"{tag}.must-raise[{exc_name}]", node)
         if sv.kind == "v" and sv.hint in CLASSES and CLASSES[sv.hint].rep and self.c.fresh_result:
@@ -2867,20 +2974,23 @@ def _patch_run():
 
     def at_raise(self, name, st, node):
         self.paths += 1
-        cond = self.c.raises.get(name, self.c.may_raise.get(name))
-        if cond is None:
-            # is a declared exception a base class of this one?
-            for decl in list(self.c.raises) + list(self.c.may_raise):
-                if exc_matches(name, decl):
-                    cond = self.c.raises.get(decl, self.c.may_raise.get(decl))
-                    break
-        if cond is None:
+        conds = []
+        for table in (self.raises, self.may_raise):
+            for decl, cnd in table.items():
+                if exc_matches(name, decl.split("@")[0]):
+                    conds.append(cnd)
+        if not conds:
             self.oblige(st, BoolVal(False), f"unreachable-raise[{name}]", node)
             return
+        cond = " or ".join(f"({c})" for c in conds)
         spec = cond if isinstance(cond, str) else cond
         c = self.truth(self.pev(ast.parse(spec, mode="eval").body, self.st0, Mode(True)), self.st0)
         self.oblige(st, c, f"raise[{name}].allowed", node)
-        for i, cl in enumerate(self.c.exc_ensures.get(name, [])):
+        ee = []
+        for decl, cls_ in self.c.exc_ensures.items():
+            if exc_matches(name, decl):
+                ee += cls_
+        for i, cl in enumerate(ee):
             g = self.truth(self.pev(ast.parse(cl, mode="eval").body, st, Mode(True, self.st0, None, None, {"out": SV("seq", st.out)})), st)
             self.oblige(st, g, f"raise[{name}].ensures[{i}]", node)
         rst = st.copy(env=dict(st.env, **{n: self.st0.env[n] for n in self.st0.env}))
@@ -2889,7 +2999,7 @@ def _patch_run():
 
     # ------------------------------------------------------------------ global hypotheses
     def global_hyps(self):
-        hy = [f for _, f in L.axioms()]
+        hy = [f for _, f in L.axioms_cached()]
         hy += L.distinct_consts()
         hy += self.extra_axioms
         # allocation closure of the entry heap: fields and container elements of allocated objects are allocated
